@@ -46,6 +46,9 @@ pub struct Case {
     /// rollers only; `append` is left out when it is the documented default `true`)
     #[serde(default)]
     pub via_config: bool,
+    /// false: the encoder's output does not end in a line break (the statement speaks of records, not of lines)
+    #[serde(default = "yes")]
+    pub terminated: bool,
 }
 
 /// What a configuration file's `kind: rolling_file` section with these settings produces.
@@ -134,8 +137,9 @@ pub fn strategy() -> impl Strategy<Value = Case> {
         prop::bool::weighted(0.75),
         prop_oneof![4 => Just(vec![]), 1 => prop::collection::vec(prop::bool::weighted(0.4), 1..=6)],
         prop::bool::weighted(0.3),
+        prop::bool::weighted(0.8),
     )
-        .prop_map(|(trigger, roller, chunks, mut ops, append_mode, flaky, via_config)| {
+        .prop_map(|(trigger, roller, chunks, mut ops, append_mode, flaky, via_config, terminated)| {
             if !flaky.is_empty() {
                 for o in ops.iter_mut() {
                     if let Op::Burst(plan) = o {
@@ -144,7 +148,7 @@ pub fn strategy() -> impl Strategy<Value = Case> {
                 }
             }
             let append_mode = append_mode || ops.iter().any(|o| matches!(o, Op::Restart));
-            Case { trigger, roller, chunks, ops, append_mode, flaky, via_config }
+            Case { trigger, roller, chunks, ops, append_mode, flaky, via_config, terminated }
         })
 }
 
@@ -185,9 +189,13 @@ pub fn read_chunks(dir: &Path, roller: &RollSpec, active: &Path) -> Result<(Vec<
 }
 
 pub fn parse_chunks(chunks: &[Vec<u8>]) -> Result<Vec<RecId>, Failure> {
+    parse_chunks_with(chunks, true)
+}
+
+pub fn parse_chunks_with(chunks: &[Vec<u8>], terminated: bool) -> Result<Vec<RecId>, Failure> {
     let mut all = vec![];
     for (i, c) in chunks.iter().enumerate() {
-        match parse_stream(c) {
+        match parse_stream_with(c, terminated) {
             Ok(r) => all.extend(r),
             Err(off) => return fail("C05:split-record", format!("file #{} (oldest first) of {} is not a concatenation of whole records at byte {} of {}", i, chunks.len(), off, c.len())),
         }
@@ -235,6 +243,7 @@ fn check_in(dir: &Path, case: &Case, obs: &mut Obs) -> CaseResult {
         Ok(Arc::new(build_appender(&active, case.append_mode, &case.chunks, policy).map_err(|e| Failure { sig: "C05:build".into(), msg: e.to_string() })?))
     };
     obs.class_if(via_config, "appender-built-by-the-rolling_file-deserializer");
+    obs.class_if(!case.terminated, "records-without-trailing-newline");
     let mut app = build()?;
     let mut now = T0;
     // reference stream: acknowledged records in write order (re-based on the observed order after a burst)
@@ -257,7 +266,7 @@ fn check_in(dir: &Path, case: &Case, obs: &mut Obs) -> CaseResult {
         match op {
             Op::Append(len) => {
                 let id = RecId { tid: 0, seq, len: *len };
-                let text = record_text(0, seq, *len);
+                let text = if case.terminated { record_text(0, seq, *len) } else { record_text_unterminated(0, seq, *len) };
                 seq += 1;
                 let failures_before = failures.load(std::sync::atomic::Ordering::SeqCst);
                 match catch(|| append_msg(&*app, &text)) {
@@ -305,10 +314,10 @@ fn check_in(dir: &Path, case: &Case, obs: &mut Obs) -> CaseResult {
                 for (ti, lens) in plan.iter().enumerate() {
                     let tid = (oi as u16 + 1) * 16 + ti as u16;
                     ids.push(lens.iter().enumerate().map(|(s, l)| RecId { tid, seq: s as u32, len: *l }).collect::<Vec<_>>());
-                    let (app, lens) = (app.clone(), lens.clone());
+                    let (app, lens, terminated) = (app.clone(), lens.clone(), case.terminated);
                     handles.push(std::thread::spawn(move || -> Result<(), String> {
                         for (s, l) in lens.iter().enumerate() {
-                            append_msg(&*app, &record_text(tid, s as u32, *l)).map_err(|e| e.to_string())?;
+                            append_msg(&*app, &if terminated { record_text(tid, s as u32, *l) } else { record_text_unterminated(tid, s as u32, *l) }).map_err(|e| e.to_string())?;
                         }
                         Ok(())
                     }));
@@ -331,7 +340,7 @@ fn check_in(dir: &Path, case: &Case, obs: &mut Obs) -> CaseResult {
         }
         obs.sub_evals += 1;
         let (chunks, archives_now) = read_chunks(dir, &case.roller, &active)?;
-        let stream = parse_chunks(&chunks)?;
+        let stream = parse_chunks_with(&chunks, case.terminated)?;
         ensure!(archives_now as u32 <= count, "C05:too-many-archives", "op {}: {} archives in a window of {}", oi, archives_now, count);
         match &burst_records {
             None => {
